@@ -32,9 +32,9 @@ add("C06", "jaxpr2smt+pysym",
     "0<=step<=max_step; effects counted per jaxpr occurrence under lax.cond semantics (un-vmapped); user step = arbitrary deterministic function; instances enumerated",
     "DESIGN.md §6 C06")
 
-add("C13", "jaxpr2smt",
+add("C13", "jaxpr2smt+pysym",
     "bounded symbolic execution of the jaxpr of Graph.run with and without aux['record'] (settings enumerated) on the same symbolic state, user steps as uninterpreted functions; z3 decides non-interference, row faithfulness and frame condition; replay on the real run with a logging probe node",
-    "Compiled runtime (so far): enabling any combination of record settings changes no non-record leaf; the record row of every executed step holds exactly the seq/times/rng/state/inputs it was handed and the output it returned; all other rows are unchanged (so never-executed rows keep -1). Bounded: one run() from an arbitrary state, enumerated instances x settings.",
+    "Threaded runtime (engine A on the real push_phase_shift/push_step/get_record): recorded rows hold exactly what the step was handed/returned (None where a setting is off), at most max_records oldest rows, and any setting/truncation leaves the steps handed, messages sent and timing state identical. Compiled runtime: enabling any combination of record settings changes no non-record leaf; the record row of every executed step holds exactly the seq/times/rng/state/inputs it was handed and the output it returned; all other rows are unchanged (so never-executed rows keep -1). Bounded: one run() from an arbitrary state, enumerated instances x settings.",
     "0<=step<=max_steps-1; executed steps of one node carry distinct in-range seqs (schedule adequacy); user step deterministic",
     "DESIGN.md §6 C13")
 
